@@ -54,3 +54,23 @@ Print Assumptions C01_avail_pure.
 Theorem C01_unlimited : forall (b:@bat R), unlimited b -> 0 < eff b -> 0 < eps b -> soc b <= 1 -> wf_bat b.
 Proof. exact unlimited_wf. Qed.
 Print Assumptions C01_unlimited.
+
+(* ---- the executable (Q) instance that is run against /repo and the proof (R) instance agree (Transfer*.v) ---- *)
+(* Battery uses exp and ln: the R side of the transfer answers them from the same recorded table ([RNumT tbl]); it differs
+   from [RNum], the instance of the theorems above, only in those two fields, and every table entry is validated against
+   60-digit arithmetic on every run. *)
+From Coq Require Import QArith Qreals.
+From Param Require Import Param.
+From SV Require Import Transfer TransferAll.
+Theorem C01_exec_load_transfer : forall tbl b b' h mp mp' tg tg',
+  SV_o_Battery_o_bat_R Q R QR b b' -> option_R Q R QR mp mp' -> SV_o_Battery_o_target_R Q R QR tg tg' ->
+  res_R _ _ (prod_R _ _ (prod_R _ _ (SV_o_Battery_o_bat_R Q R QR) Q R QR) Q R QR)
+    (@Battery.load Q (QNum tbl) b h mp tg) (@Battery.load R (RNumT tbl) b' (Q2R h) mp' tg').
+Proof. exact load_transfer. Qed.
+Print Assumptions C01_exec_load_transfer.
+Theorem C01_exec_unload_transfer : forall tbl b b' h mp mp' tg tg',
+  SV_o_Battery_o_bat_R Q R QR b b' -> option_R Q R QR mp mp' -> SV_o_Battery_o_target_R Q R QR tg tg' ->
+  res_R _ _ (prod_R _ _ (prod_R _ _ (SV_o_Battery_o_bat_R Q R QR) Q R QR) Q R QR)
+    (@Battery.unload Q (QNum tbl) b h mp tg) (@Battery.unload R (RNumT tbl) b' (Q2R h) mp' tg').
+Proof. exact unload_transfer. Qed.
+Print Assumptions C01_exec_unload_transfer.
